@@ -486,6 +486,7 @@ theorem step_inv (s : St) (op : Op) (h : Inv s) : Inv (step s op).1 := by
     · rename_i s' hc; rw [setCell_core s s' n v hc]; exact h
     · exact h
   | save => exact h
+  | reopen => exact h
   | observe => simp only [step]; rw [observe_core]; exact h
 
 theorem run_inv (s : St) (ops : List Op) (h : Inv s) : Inv (run s ops) := by
